@@ -109,6 +109,7 @@ props["C06"] = {
     "runs": [
         run("root", "VxC06Compact", {"K": 2, "C": 3, "DST": 1}, {"K": 3, "C": 3, "DST": 1}),
         run("root", "VxC06Compact", {"K": 2, "C": 2, "DST": 2}, {"K": 2, "C": 3, "DST": 2}, note="level 1 -> level 2, multi-TXID inputs"),
+        run("root", "VxC02Snapshot", {}, {}, note="level-9 snapshots (DB.Snapshot's page source): size and every page equal the state at the advertised position, also after a shrink (shared with C02)"),
     ],
     "assumptions": [
         "R-LVL (DESIGN.md D.3): the destination level is a contiguous run ending at a source-file boundary; the source level continues contiguously from there",
@@ -364,11 +365,13 @@ props["C02"] = {
 
 props["C04"] = {
     "level": "model_checking", "validate": 6,
+    "unreached_ok": ["idle-round-keeps-replica-at-source"],
     "runs": [
-        run("root", "VxC04Fresh", {}, {}),
-        run("root", "VxC04SameProcess", {}, {}),
-        run("root", "VxC04Reopened", {}, {}),
+        run("root", "VxC04Fresh", {"ROUND2": 0}, {}),
+        run("root", "VxC04SameProcess", {"ROUND2": 0}, {}),
+        run("root", "VxC04Reopened", {"ROUND": 0}, {}),
         run("root", "VxC04Reset", {}, {}),
+        run("root", "VxC04ResetContinuity", {"ROUND2": 0}, {}),
     ],
     "assumptions": [
         "E-WAL (DESIGN.md C04/D.4): a WAL generation has fixed salts (salt1 = previous + 1, salt2 random; two generations never share both); frames are only appended within a generation; a restart overwrites from offset 32 and happens only when the previous generation is fully backfilled; the file is shortened only by TRUNCATE checkpoints, journal_size_limit or deletion; stale frames of older generations stay beyond the new generation's end",
@@ -383,9 +386,11 @@ props["C04"] = {
 
 props["C01"] = {
     "level": "model_checking", "validate": 6,
+    "unreached_ok": ["idle-round-keeps-replica-at-source"],
     "runs": [
         run("root", "VxC01Sync", {}, {}),
-        run("root", "VxC04SameProcess", {}, {}, note="continuity invariant in the observed scenario (shared with C04)"),
+        run("root", "VxC01Ack", {}, {}, note="acknowledging entry points: SyncAndWait, Store.SyncDB(wait), Close"),
+        run("root", "VxC04SameProcess", {"ROUND2": 0}, {}, note="continuity invariant in the observed scenario (shared with C04)"),
         run("root", "VxC09PageMap", {"PS": 8, "K": 2, "_tactic": 1}, {"PS": 8, "K": 3, "_tactic": 1}, note="frame selection = SQLite's committed pages (shared with C09)"),
         run("root", "VxC05Sync", {"N": 2, "R": 1}, {"N": 3, "R": 2}, note="acknowledgement implies stored (shared with C05)"),
         run("root", "VxC14Checkpoint", {}, {}, note="checkpoint step: barrier transaction rolled back, read lock re-acquired (shared with C14)"),
